@@ -1,5 +1,6 @@
 import VelaVerif.Lemmas.Rewrites
 import VelaVerif.Lemmas.StridedConv
+import VelaVerif.Lemmas.LreluReal
 import VelaVerif.Props.C01
 import Mathlib.Algebra.Order.Field.Basic
 import Mathlib.Tactic.Linarith
@@ -14,7 +15,7 @@ parameters in the rewrite's precondition. Where the precondition the code checks
 for the repaired precondition and the negation is proved on a concrete witness (`…_witness`).
 -/
 namespace VelaVerif.Props.C01Rewrites
-open VelaVerif.Requant VelaVerif.TfliteRef VelaVerif.RewriteSem VelaVerif.Rewrites VelaVerif.Lemmas.Rewrites VelaVerif.Lemmas.Sem VelaVerif.Lemmas.StridedConv
+open VelaVerif.Requant VelaVerif.TfliteRef VelaVerif.RewriteSem VelaVerif.Rewrites VelaVerif.Lemmas.Rewrites VelaVerif.Lemmas.Sem VelaVerif.Lemmas.StridedConv VelaVerif.Lemmas.LreluReal
 
 /-! ## 6. Activation ranges of a pass are intersected -/
 
@@ -66,8 +67,6 @@ example : finalNonempty (passActivation (some ReluKind.relu6.range) [ReluKind.re
 section Real
 variable {α : Type} [Field α] [LinearOrder α] [IsStrictOrderedRing α]
 
-/-- LeakyReLU over an ordered field -/
-def lrelu (a x : α) : α := if 0 ≤ x then x else a * x
 
 /-- `LeakyReLU(x) = max(x, alpha * x)` for `alpha ≤ 1` (the code uses this form for `0 < alpha < 1`) -/
 theorem lrelu_eq_max (a x : α) (h1 : a ≤ 1) : lrelu a x = max x (a * x) := by
